@@ -90,3 +90,21 @@ def specInv (w : World) (d : Decls) (k : ClsId) : List (Nat × CheckOn) :=
   | none => []
 
 end Icontract.Meta
+
+namespace Icontract.Meta
+
+/-- the list cells a checker owns: its three lists and the cells of its precondition groups -/
+def cellsOf (w : World) (ck : CheckerObj) : List Ref := [ck.pre, ck.snaps, ck.posts] ++ w.heap.get ck.pre
+
+/-- no two functions share a list cell (what makes a late in-place decoration local) -/
+def Separated (w : World) : Prop :=
+  ∀ f g ckf ckg, f ≠ g → w.checker? f = some ckf → w.checker? g = some ckg →
+    ∀ r ∈ cellsOf w ckf, r ∉ cellsOf w ckg
+
+/-- every reference held by a checker points into the heap, the cells of one checker are pairwise distinct,
+and function ids occur once in the checker table -/
+def CheckersWf (w : World) : Prop :=
+  (w.checkers.map (·.1)).Nodup ∧
+  ∀ f ck, w.checker? f = some ck → (cellsOf w ck).Nodup ∧ ∀ r ∈ cellsOf w ck, r < w.heap.length
+
+end Icontract.Meta
